@@ -28,7 +28,7 @@ ASSUMPTIONS = [
     "EML exporter: qualified attributes, prefixes and namespace maps are not part of its contract (it predates them); the "
     "boilerplate attributes it adds to an eml root are ignored",
 ]
-REQUIRED = ["failed_exports_before_ordinary_ones", "exports_without_namespace_declarations", "exports_at_a_deeper_level", "dense_special_cases", "prefix_pair_cases", "vocabulary_attribute_cases", "vocabulary_content_cases", "exported_again_after_in_place_edits", "fragment_exports", "general_exports", "eml_exports", "expat_accepts", "libxml2_accepts", "reimports", "special:<:content", "special:&:content",
+REQUIRED = ["eml_exports_of_trees_with_prefixed_nodes", "failed_exports_before_ordinary_ones", "exports_without_namespace_declarations", "exports_at_a_deeper_level", "dense_special_cases", "prefix_pair_cases", "vocabulary_attribute_cases", "vocabulary_content_cases", "exported_again_after_in_place_edits", "fragment_exports", "general_exports", "eml_exports", "expat_accepts", "libxml2_accepts", "reimports", "special:<:content", "special:&:content",
             "special:\":attribute", "special:<:attribute", "special:&:attribute", "special:&:extras", "special:<:tail", "special:&:uri",
             "trees_with_nested_declarations"]
 THREAD_HAMMER = "full"      # (mode T side shards: the hammering threads also import, load and copy documents of their own)
@@ -405,6 +405,16 @@ def run(ctx, params):
         count_specials(ctx, root)
         before = snapshot.Snap([root])
         if for_eml:
+            if i % 2 == 0:
+                # nodes written with a prefix (an stmml:unitList section exported on its own): the EML exporter is not obliged to do
+                # anything with prefixes - but what it writes is a document
+                for px_, uri_ in (("stmml", "http://www.xml-cml.org/schema/stmml-1.2"), ("eml", "https://eml.ecoinformatics.org/eml-2.2.0"),
+                                  ("xsi", "http://www.w3.org/2001/XMLSchema-instance"), ("dc", "http://purl.org/dc/elements/1.1/")):
+                    root.add_namespace(px_, uri_)       # (declared on the root, in scope everywhere)
+                for n_ in snapshot.walk(root):
+                    if rng.random() < 0.3:
+                        n_.prefix = rng.choice(["stmml", "eml", "xsi", "dc"])
+                ctx.count("eml_exports_of_trees_with_prefixed_nodes")
             if rng.random() < 0.3:
                 root.name = "eml"
             ctx.case(judge_eml, ctx, root)
